@@ -14,6 +14,7 @@ import CssVerif.Driver.UptoOps
 import CssVerif.Driver.ImportOps
 import CssVerif.Driver.LinkOps
 import CssVerif.Driver.OwnOps
+import CssVerif.Driver.ResolveOps
 import CssVerif.Driver.UrlOps
 import CssVerif.Driver.EscOps
 import CssVerif.Driver.ValueOps
@@ -66,6 +67,7 @@ def step (line : String) : String :=
   | ["rfcpath", m] => ImportOps.opRfcPath m
   | ["tree", fx, n, hist] => LinkOps.run fx n hist
   | ["own", roots, hist] => OwnOps.run roots hist
+  | ["resolve", sh] => ResolveOps.opResolve sh
   | ["urlrt", u] => UrlOps.opUrlRt u
   | ["urltrav", t] => UrlOps.opUrlTrav t
   | ["escall", e, t] => EscOps.opEscAll e t
